@@ -153,10 +153,45 @@ def _wrap_path_func(name, real, idxs):
             flt = getattr(ctx, "stat_filter", None)
             if flt is not None:
                 res = flt(res)
+        lo = getattr(ctx, "list_order", None)
+        if lo and name == "listdir":
+            res = sorted(res, reverse=(lo == "reversed"))      # the order of a directory listing is the file system's choice
+        elif lo and name == "scandir":
+            res = _OrderedScandir(res, lo == "reversed")
         return res
     w.__name__ = name
     w.__wrapped__ = real
     return w
+
+
+class _OrderedScandir:
+    """os.scandir result with its entries in a chosen order (sorted / reverse-sorted by name)."""
+
+    def __init__(self, it, reverse):
+        try:
+            self._entries = sorted(it, key=lambda e: e.name, reverse=reverse)
+        finally:
+            it.close()
+        self._i = 0
+
+    def __iter__(self):
+        return self
+
+    def __next__(self):
+        if self._i >= len(self._entries):
+            raise StopIteration
+        self._i += 1
+        return self._entries[self._i - 1]
+
+    def close(self):
+        self._i = len(self._entries)
+
+    def __enter__(self):
+        return self
+
+    def __exit__(self, *a):
+        self.close()
+        return False
 
 
 class FileProxy:
